@@ -218,7 +218,10 @@ CLAIMS = {
              "every recorded sample genuine, every recorded step constraint true, and never changes free leaves; composed with "
              "C03 over the class plans REGENERATED from the sources (22 classes) every generated class constraint holds at the "
              "run's values; the Gram matrix of a real valuation is a feasible point, so with C01's weak duality every real run "
-             "is bounded by the certified value. Tie: recording model vs. the real oracle / step calls (exact); validation: "
+             "is bounded by the certified value. Tie: recording model vs. the real oracle / step calls (exact); every shipped "
+             "example traced on the real PEPit and, when inside the op language (49 of 83), compared exactly with mrun of its "
+             "program (the other 34 - composite functions, fixed_point, block partitions, a step at an evaluated point - are "
+             "listed, not covered by the run model); validation: "
              "sources of the shipped examples re-executed on adversarially tuned real members and compared with PEPit's value.",
         ref="DESIGN.md 5.9",
         note="conditional on the solver assumption of C01; class definitions of Spec/Classes.v; the example-code = "
